@@ -13,14 +13,17 @@ CHECK = {
                             "ray_reverse", "ray_border_end",
                             "api_cast_o_e", "api_setorigin_cast_e", "api_cast_e_keep_origin",
                             "api_setorigin_setend_cast", "api_next_loop",
+                            "api_alias_cast_getend_q", "api_alias_cast_p_getorigin", "api_alias_cast_getend_getorigin",
+                            "api_alias_cast_getorigin_getend", "api_alias_cast_getend", "api_alias_cast_getorigin",
+                            "api_alias_setend_getorigin_cast", "api_alias_setorigin_getend_cast_q",
                             "disturb_stray_next", "disturb_stale_cast", "disturb_setend_only",
                             "disturb_setorigin_only",
                             "grid_change_set_mapping", "grid_change_reassign_object",
                             "same_origin_after_grid_change"],
-    "required_oracles": ["history.equals_fresh_caster", "accessors", "length.l1_plus_1", "start.cell_of_origin",
+    "required_oracles": ["history.equals_fresh_caster", "alias.equals_cast_of_copied_values", "accessors", "length.l1_plus_1", "start.cell_of_origin",
                          "start.contains_origin_cells", "in_bounds", "steps.face_adjacent",
                          "segment.cell_gap_cells", "end.closed_extent_cells", "end.own_cell"],
-    "required_counters": ["casts", "casts_right_after_grid_change", "history_compared_on_reused_caster", "cells_checked_against_segment",
+    "required_counters": ["casts", "casts_with_aliased_arguments", "casts_right_after_grid_change", "history_compared_on_reused_caster", "cells_checked_against_segment",
                           "float_rays_segment_checked"],
     "rule": "case = one grid (float/double x 2D/3D drawn per case; resolution from {0.1, 0.125, 0.01, 1, 0.5, 0.25, "
             "0.05, 0.2, 1/16, 1/64} or log-uniform in [0.01,1]; 1..2000 cells per axis; range constructor or interval "
@@ -32,7 +35,11 @@ CHECK = {
             "centre/border (corner ties on dyadic resolutions), all-but-one component tiny, extent corner to corner, "
             "reverse of the previous ray, end on borders/corners}; the cast goes through one of cast(o,e) / "
             "setOriginPoint+cast(e) / cast(e) keeping the origin / setOriginPoint+setEndPoint+cast() / the manual "
-            "next() loop, after one of {nothing, 1..40 stray next(), a stale cast(), setEndPoint only, setOriginPoint "
+            "next() loop, or (25 % of the casts that follow a cast on the same grid) a call whose arguments are references "
+            "to the caster's own points: cast(getEndPoint(), q), cast(p, getOriginPoint()), cast(getEndPoint(), "
+            "getOriginPoint()), cast(getOriginPoint(), getEndPoint()), cast(getEndPoint()), cast(getOriginPoint()), "
+            "setEndPoint(getOriginPoint())+cast(), setOriginPoint(getEndPoint())+cast(q), the expected ray being the one "
+            "between the values the references had at the call; each after one of {nothing, 1..40 stray next(), a stale cast(), setEndPoint only, setOriginPoint "
             "only}; with probability 0.12 between two casts the grid seen by the caster changes (setGridIndexMapping "
             "to a second mapping, or a new mapping assigned to the pointed-to object: same bounds with another "
             "resolution, perturbed bounds, or an unrelated grid) and the next cast specifies its origin, 65 % of the "
